@@ -48,6 +48,7 @@ def _targets():
         "chain_free": (F.chain, (f32(-1.2),), [], [(("all",), ("mala", "hmc")), (("str", "y"), ("mh", "mala"))]),
         "fanin": (F.fanin, (f32(0.3),), [("y",)], [(("or", ("str", "z"), ("str", "w")), ("mh",)), (("str", "w"), ("mh",))]),
         "vecparam": (F.vecparam, (F.A(0.1, 0.7),), [("y",)], [(("str", "x"), ("mh", "mala", "hmc"))]),
+        "vecscale": (F.vecscale, (f32(0.3),), [("y",)], [(("str", "x"), ("mh", "mala", "hmc"))]),
         "vecsite": (F.vecsite, (f32(0.3),), [("y",)], [(("str", "m"), ("mh", "mala", "hmc"))]),
         "vmap_indep": (F.vmap_indep, (F.A(0.1, 0.7),), [], [(("tup", ("v", "x")), ("mh",)), (("tup", ("v", "y")), ("mh", "mala", "hmc"))]),
         "scan_c": (F.scan_c, (f32(0.3), F.A(0.5, -0.4)), [("y",)], [(("tup", ("s", "z")), ("mh", "mala", "hmc"))]),
